@@ -94,6 +94,14 @@ CHECKS = {
         "rule": "roundtrip: non-trivial = the value contains a collection of >= 2 items or a leaf from a non-default class (exponent form, subnormal, boundary integer, non-ASCII or escaped rune/string). typed-fixpoint: >= 2 numbers. format-histories: a successful call follows a failed one. deep-and-cyclic: every case. distinct = distinct decoded cases (FNV-64 of the rendered value).",
         "assumptions": ["'never hangs' is decided by the 60 s watchdog; process death (stack overflow) by the per-case journal"],
     },
+    "C11": {
+        "parts": [{"pkg": "notation", "test": "TestC11", "subs": ["small-derivations", "random-derivations", "unrepresentable-literals"]}],
+        "technique": "grammar-based generation (derivations of Syntax.cdsn with their denotation computed by the generator via strconv) - exhaustive for a small bound, rapid beyond; oracle = denotation comparison; controlled scanner/parser schedules for determinism",
+        "level_text": "Sentences are derived from Syntax.cdsn by a generator that returns text and denotation together: every Items alternative (inline, multi-line, the empty forms), every Intrinsic alternative with every literal form (signed/unsigned/boundary integers, hexadecimal with 1-16 digits and leading zeros, floats with optional signs and e/E exponents of 1-3 digits of both signs, complex with all sign combinations, plain and escaped runes and strings), all seven type contexts, nesting, insignificant spaces, 0-3 trailing EOLs, token streams below, at and above the scanner queue capacity. The parsed object must match the denotation computed with strconv on the generator's side (kind, source order, Catalog first-position/last-value, Map last value, Set membership = de-duplicated literals and strictly ascending). Small derivations are enumerated completely; literals that cannot be represented (out-of-range integers/hex/floats, ill-formed escapes) inside valid documents must be rejected.",
+        "level_note": "The published rune rule and the scanner disagree on quotes and escapes: only forms both accept are generated as sentences (plain non-control runes other than ' and \\, Go-valid escapes). A foreign quote escape (\\' in a string, \\\" in a rune) may be rejected or accepted with its one possible meaning. Float underflow to zero may be rejected or accepted. Determinism under perturbed goroutine schedules is decided by the controlled-scheduler part (conc package).",
+        "rule": "small-derivations: exhaustive for the stated bound (one representative literal per alternative, <= 2 items, nesting 2). random-derivations: non-trivial = >= 2 items, or nesting >= 1, or a non-default literal form. unrepresentable-literals: 24 literals x 6 wrappers, exhaustive. distinct = distinct decoded cases.",
+        "assumptions": ["standard Go semantics of a literal = strconv.ParseInt/ParseUint/ParseFloat/UnquoteChar/Unquote applied by the generator to the text it wrote"],
+    },
     "C13": {
         "parts": [{"pkg": "seq", "test": "TestC13", "subs": ["history", "words", "ctor-sizes"], "thorough_shards": 8}],
         "technique": "model-based stateful property testing (rapid) against a top-first slice model + exhaustive enumeration of push/pop words and constructor sizes",
